@@ -1,5 +1,5 @@
 import Proofs.C20
-import Proofs.Gen
+import Proofs.GenPurity
 #print axioms Xsel.C20.records_empty_nodeset
 #print axioms Xsel.C20.records_failed
 #print axioms Xsel.C20.records_scalar
@@ -20,4 +20,6 @@ import Proofs.Gen
 #print axioms Xsel.C20.bad_file_isolated_dir
 #print axioms Xsel.C20.bad_files_isolated_everywhere
 #print axioms Xsel.C20.stdout_is_blocks
+#print axioms Xsel.C20.binding_split
+#print axioms Xsel.C20.binding_rejected
 #print axioms Xsel.Gen.one_write_per_block
